@@ -1076,7 +1076,7 @@ class Literal(Variable[T]):
         if not type_:
             original_data_lst = make_list(original_data)
             first_value = original_data_lst[0] if len(original_data_lst) > 0 else None
-            type_ = type(first_value) if first_value else None
+            type_ = type(first_value) if first_value is not None else None
         if name is None:
             if type_:
                 name = type_.__name__
